@@ -107,6 +107,16 @@ def upstream(rng, n, alt_det, hostile=True):
         alt[11] = 10.0
         alt[12] = float(np.nextafter(10.0, 11))
         alt[13] = 0.0
+        if m > 24:
+            # out-of-range decays whose geometry is degenerate (distance to the detector 0, infinite or
+            # undefined): they are outside [0, 10] km like any other and must give an exactly zero field
+            beta = np.array(beta, copy=True)
+            alt[15] = alt_det  # decays at the detector's own altitude
+            alt[16] = np.inf
+            alt[17], beta[17] = -1.0, math.radians(0.5)  # below ground on a grazing track
+            alt[18] = 1e300
+            alt[19], l[19] = alt_det, float((L * np.cos(theta))[19])
+            alt[20] = -np.inf
         # viewed exactly along the shower axis: the parametrised field is certainly non-zero there
         theta = np.array(theta, copy=True)
         theta[[0, 11, 12, 13]] = 0.0
